@@ -621,7 +621,7 @@ class SamplingMethod(DirectMethod):
 
     def check_refine(self, stage):
         # only SplineMethod imposes path constraints at refined grid points
-        for c, meta, args in stage._constraints["control"]:
+        for c, meta, args in stage._constraints["control"]+stage._constraints["integrator"]+stage._constraints["integrator_roots"]:
             if args.get("refine", 1)!=1 or args.get("group_refine", False):
                 raise Exception("subject_to(..., refine=/group_refine=) is only supported by SplineMethod")
 
